@@ -6,6 +6,7 @@ import (
 	"github.com/aergoio/aergo/v2/types"
 	"github.com/aergoio/aergo/v2/types/dbkey"
 	vf "github.com/aergoio/aergo/v2/zzvf"
+	lru "github.com/hashicorp/golang-lru"
 )
 
 // C05.c: reorganizer.gather returns exactly the blocks above the common ancestor on both sides, in descending order,
@@ -149,4 +150,133 @@ func VF_C05_d() {
 		}
 	}
 	vf.Observe("best", u.cs.cdb.getBestBlockNo())
+}
+
+// C05.e: arrival histories. After genesis, ALL blocks of the tree (main branch and side branch) are handed to the real
+// ChainService.addBlock in EVERY order (children before parents => orphan pool; the branches overtake each other =>
+// reorganisations back and forth through the real reorg); block execution is vfExec through the hook. After every
+// single arrival the chain database is coherent: the cached best block is a block of the tree, the C05 invariant holds
+// for the chain that ends in it, the state DB root is its state root and no reorg marker is left. After the last arrival
+// the best block is the tip of the (strictly longest) side branch, the abandoned-tx rule holds, every block is stored
+// and the orphan pool is empty.
+func VF_C05_e() {
+	a, f, b := vfShape(vf.Param("maxA", 1), vf.Param("maxExtra", 1))
+	w := vfCrashUniverse(a, f, b, vf.Param("minTx", 1), vf.Param("maxTx", 1))
+	u := w.u
+	// node start: genesis executed and connected
+	w.commitState(u.skv, u.gen)
+	if err := u.connect(u.gen); err != nil {
+		vf.Fail("setup")
+	}
+	u.cs.sdb.SetRoot(u.gen.Header.BlocksRootHash)
+	u.cs.op = NewOrphanPool(DfltOrphanPoolSize)
+	u.cs.errBlocks, _ = lru.New(dfltErrBlocks)
+	e := &vfExec{w: w, skv: u.skv, failAt: -1}
+	vfExecHook = e.hook
+	blocks := append(append([]*types.Block{}, u.main...), u.side...)
+	parentOf := func(i int) int { // index of the parent in blocks; -1 = genesis
+		switch {
+		case i < a:
+			return i - 1
+		case i == a:
+			return f - 1
+		}
+		return i - 1
+	}
+	rest := make([]int, len(blocks))
+	for i := range rest {
+		rest[i] = i
+	}
+	// bookkeeping for the expectations: which blocks can be stored at all. The orphan pool keeps ONE waiting child per
+	// missing parent (OrphanPool.addOrphan: "already exist"): a second child of the same missing parent is dropped.
+	stored := make([]bool, len(blocks))
+	waiting := map[int]int{} // missing parent -> waiting child
+	dropped := false
+	for len(rest) > 0 {
+		k := vf.Choice("next", len(rest))
+		i := rest[k]
+		blk := blocks[i]
+		rest = append(append([]int{}, rest[:k]...), rest[k+1:]...)
+		if p := parentOf(i); p < 0 || stored[p] {
+			stored[i] = true
+			for cur := i; ; {
+				c, ok := waiting[cur]
+				if !ok {
+					break
+				}
+				delete(waiting, cur)
+				stored[c] = true
+				cur = c
+			}
+		} else if _, busy := waiting[p]; busy {
+			dropped = true
+		} else {
+			waiting[p] = i
+		}
+		err := u.cs.addBlock(blk, nil, "")
+		vf.Assert(err == nil, "C05.e")
+		vfCheckCoherent("C05.e", u)
+	}
+	vf.Reach("C05.e")
+	for i, blk := range blocks {
+		_, err := u.cs.cdb.getBlock(blk.Hash)
+		vf.Assert((err == nil) == stored[i], "C05.e")
+	}
+	vf.Assert(u.cs.op.curCnt == len(waiting) && len(u.cs.op.cache) == len(waiting), "C05.e")
+	// C07.f: every block was delivered once, the side branch is strictly the longest: the node ends on its tip.
+	best, _ := u.cs.cdb.GetBestBlock()
+	onTip := best != nil && bytes.Equal(best.GetHash(), u.side[b-1].Hash)
+	if dropped {
+		vf.Reach("C07.f.dropped")
+		vf.AssertKnown(onTip, "C07.f", "F14-orphan-pool-one-child-per-parent", dropped)
+	} else {
+		vf.Reach("C07.f")
+		vf.Assert(onTip, "C07.f")
+		vf.Assert(len(waiting) == 0, "C07.f")
+		vfCheckAbandoned("C07.f", u)
+	}
+	vf.Observe("executed", len(e.executed))
+	vf.Observe("best", u.cs.cdb.getBestBlockNo())
+	vf.Observe("dropped", dropped)
+}
+
+// vfCheckCoherent: the cached best block is a block of the universe; the C05 invariant (and receipts) holds for the
+// chain ending in it; the state DB stands at its root; no reorg marker is left.
+func vfCheckCoherent(ob string, u *vfUniverse) {
+	best, _ := u.cs.cdb.GetBestBlock()
+	vf.Assert(best != nil, ob)
+	if best == nil {
+		return
+	}
+	var tip *types.Block
+	for _, o := range u.all {
+		if bytes.Equal(o.Hash, best.GetHash()) {
+			tip = o
+			break
+		}
+	}
+	vf.Assert(tip != nil, ob)
+	if tip == nil {
+		return
+	}
+	// the chain ending in tip, by the universe's own parent links
+	var rev []*types.Block
+	for cur := tip; cur != nil; {
+		rev = append(rev, cur)
+		var parent *types.Block
+		for _, o := range u.all {
+			if o.Header.BlockNo+1 == cur.Header.BlockNo && bytes.Equal(o.Hash, cur.Header.PrevBlockHash) {
+				parent = o
+				break
+			}
+		}
+		cur = parent
+	}
+	path := vfRev(rev)
+	vfCheckChain(ob, u.cs, u.kv, path)
+	for _, blk := range path {
+		vfCheckReceipts(ob, u.cs, blk)
+	}
+	vf.Assert(bytes.Equal(u.cs.sdb.GetRoot(), tip.Header.BlocksRootHash), ob)
+	vf.Assert(len(u.kv.Get(dbkey.ReOrg())) == 0, ob)
 }
